@@ -59,7 +59,7 @@ type collateGen struct {
 func newCollateGen(seed int64, tier string) *collateGen {
 	g := &collateGen{seed: seed, tier: tier, nRandom: 2000, byCS: map[string][]string{}}
 	if tier == "thorough" {
-		g.nRandom = 20000
+		g.nRandom = 8000
 	}
 	it := sql.NewCollationsIterator()
 	for {
